@@ -614,4 +614,82 @@ theorem gen_net_structure_instance :
 
 end GeneratedNetStructure
 
+section Audit
+/-! ## AUDIT (g27): non-vacuity instances added by the reviewer; no existing declaration changed -/
+
+/-- AUDIT non-vacuity of `RankChain` / `masked_mlp_dependency_chain`: a two-layer chain with different rank vectors per layer,
+weights of both signs; output 0 (rank 1) ignores the rank-1 and rank-2 inputs. -/
+theorem rankChain_audit_instance :
+    RankChain [0, 1, 2] [⟨rankBasedMask [0, 1, 2] [0, 1] true, [[1, -2, 3], [4, 5, -6]], [1, -1]⟩,
+      ⟨rankBasedMask [0, 1] [1, 2] false, [[7, -8], [9, 10]], [0, 2]⟩] [1, 2] :=
+  RankChain.cons _ _ _ _ _ _ (RankChain.last _ _ _ _)
+
+theorem masked_mlp_chain_audit_instance (a b c b' c' : ℝ) :
+    (mlpForward (fun z => z) [⟨rankBasedMask [0, 1, 2] [0, 1] true, [[1, -2, 3], [4, 5, -6]], [1, -1]⟩,
+      ⟨rankBasedMask [0, 1] [1, 2] false, [[7, -8], [9, 10]], [0, 2]⟩] [a, b, c])[0]? =
+    (mlpForward (fun z => z) [⟨rankBasedMask [0, 1, 2] [0, 1] true, [[1, -2, 3], [4, 5, -6]], [1, -1]⟩,
+      ⟨rankBasedMask [0, 1] [1, 2] false, [[7, -8], [9, 10]], [0, 2]⟩] [a, b', c'])[0]? := by
+  refine masked_mlp_dependency_chain rankChain_audit_instance _ 0 (by simp) _ _ rfl ?_
+  intro j hj hj' hr hlt
+  have : j = 0 := by
+    simp at hr
+    interval_cases j <;> simp_all
+  subst this; rfl
+
+/-- AUDIT: `maf_complete` instantiated (dim 3, cond_dim 2, width 3, depth 2, 2 params per dim): x₀ reaches parameter 1 of coordinate 2,
+and condition input 4 reaches parameter 0 of coordinate 0. -/
+theorem maf_complete_audit_instance :
+    (∃ path : List Nat, path.head? = some 0 ∧ path.getLast? = some 5 ∧ path.length = 4 ∧
+      PathOpen (mlpMasks (mafInRanks 3 (some 2)) (mafHiddenRanks 3 3 (some 2)) (mafOutRanks 3 2) 2) path) ∧
+    (∃ path : List Nat, path.head? = some 4 ∧ path.getLast? = some 0 ∧ path.length = 4 ∧
+      PathOpen (mlpMasks (mafInRanks 3 (some 2)) (mafHiddenRanks 3 3 (some 2)) (mafOutRanks 3 2) 2) path) :=
+  ⟨maf_complete 3 3 2 2 (some 2) (by norm_num) 2 1 (by norm_num) (by norm_num) 0 (Or.inl (by norm_num)),
+   maf_complete 3 3 2 2 (some 2) (by norm_num) 0 0 (by norm_num) (by norm_num) 4 (Or.inr (by simp))⟩
+
+/-- AUDIT: width < dim really loses a permitted dependency (so `dim ≤ width` in `maf_complete` is not decorative):
+dim 3, unconditional, width 1, depth 1 — x₁ never reaches the parameters of coordinate 2. -/
+theorem maf_incomplete_audit_instance :
+    entry (reachMask 3 (mlpMasks (mafInRanks 3 none) (mafHiddenRanks 3 1 none) (mafOutRanks 3 1) 1)) 2 1 = false ∧
+    entry (reachMask 3 (mlpMasks (mafInRanks 3 none) (mafHiddenRanks 3 1 none) (mafOutRanks 3 1) 1)) 2 0 = true := by
+  constructor <;> decide
+
+
+/-- AUDIT: the hypotheses of `bnaf_strict_mono` / `bnaf_dependency` are jointly satisfiable WITH a condition (`cond_linear` present) and
+with the real activation shape `tanh`: dim 2, depth 1, block_dim 1, weights of both signs. -/
+theorem bnaf_cond_tanh_audit_instance (x0 x1 c t t' : ℝ) (htt : t < t') :
+    nth (bnafTransform Real.tanh bnafExample (some [[2], [-3]]) ([x0, x1].set 1 t) [c]) 1
+      < nth (bnafTransform Real.tanh bnafExample (some [[2], [-3]]) ([x0, x1].set 1 t') [c]) 1 := by
+  have hact : StrictMono Real.tanh := fun a b h => Leaves.tanh_lt_tanh.mpr h
+  have hws : ∀ L ∈ bnafExample, BnafWellShaped L ∧ L.n = 2 := by
+    intro L hL
+    simp only [bnafExample, List.mem_cons, List.not_mem_nil, or_false] at hL
+    rcases hL with rfl | rfl
+    · exact ⟨⟨⟨rfl, by intro row hrow; simp at hrow; rcases hrow with rfl | rfl <;> rfl⟩, rfl, rfl⟩, rfl⟩
+    · exact ⟨⟨⟨rfl, by intro row hrow; simp at hrow; rcases hrow with rfl | rfl <;> rfl⟩, rfl, rfl⟩, rfl⟩
+  have hsh : bnafExample.map (fun L => (L.b0, L.b1)) = bnafBlockShapes 1 1 := by decide
+  exact bnaf_strict_mono _ hact 2 1 1 (by norm_num) bnafExample hsh hws (some [[2], [-3]]) [c]
+    (by intro C hC L hL; simp at hC; subst hC; simp [bnafExample] at hL; subst hL; rfl) [x0, x1] rfl 1 (by norm_num) t t' htt
+
+/-- AUDIT: a well-shaped CONDITIONAL MAF net (dim 2, cond_dim 1, width 3, depth 1, two parameters per dimension, weights of both signs):
+`maf_autoregressive` applies — the parameters of coordinate 0 ignore x entirely, output 0 of `transform` ignores x₁. -/
+def mafCondAudit : MafNet ℝ :=
+  { dim := 2, condDim := some 1, width := 3, depth := 1, numParams := 2,
+    weights := [[[1, -2, 3], [-1, 2, 5], [4, 0, -1]], [[1, 2, -3], [2, -1, 1], [3, 1, -2], [-4, 1, 1]]],
+    biases := [[0, 1, -1], [1, 0, 2, -2]], act := fun z => z * z * z }
+
+theorem mafCond_audit_instance : mafCondAudit.WellShaped ∧
+    ∀ a b a' b' c : ℝ, (mafCondAudit.params [a, b] [c])[0]? = (mafCondAudit.params [a', b'] [c])[0]? := by
+  have hW : mafCondAudit.WellShaped := by
+    refine ⟨rfl, rfl, ?_⟩
+    intro l hw hb
+    have hl : l < 2 := hw
+    interval_cases l
+    · exact ⟨3, 3, rfl, rfl, ⟨rfl, by intro row hrow; simp [mafCondAudit] at hrow; rcases hrow with rfl | rfl | rfl <;> rfl⟩, rfl⟩
+    · exact ⟨3, 4, rfl, rfl, ⟨rfl, by intro row hrow; simp [mafCondAudit] at hrow; rcases hrow with rfl | rfl | rfl | rfl <;> rfl⟩, rfl⟩
+  refine ⟨hW, fun a b a' b' c => ?_⟩
+  refine (maf_autoregressive mafCondAudit hW (fun _ z => z) [a, b] [a', b'] [c] rfl rfl 0 (by decide)).1 ?_
+  intro j hj hj' hj1
+  omega
+end Audit
+
 end C09
